@@ -190,17 +190,17 @@ def flux(ctx, nw, ng):
 
 @harness('C02', 'isothermal',
          quick=[dict(n=2, nw=1, kinds=['sigma'], ng=2), dict(n=3, nw=1, kinds=['sigma', 'cia'], ng=2, _shards=4)],
-         thorough=[dict(n=2, nw=2, kinds=['sigma', 'cia'], ng=2, _shards=4), dict(n=3, nw=2, kinds=['sigma'], ng=3, _shards=8),
-                   dict(n=4, nw=1, kinds=['sigma', 'sigma'], ng=2, _shards=8)],
+         thorough=[dict(n=2, nw=2, kinds=['sigma', 'cia'], ng=2, _shards=4), dict(n=3, nw=2, kinds=['sigma'], ng=3, concrete_quad=True, _shards=8),
+                   dict(n=3, nw=1, kinds=['sigma'], ng=2, _shards=4), dict(n=4, nw=1, kinds=['sigma', 'sigma'], ng=2, concrete_quad=True, _shards=8)],
          covers=['unclamped', 'clamped'], functions=FUNCS, stubs=STUBS, shard_depth=4, max_paths=40000)
-def isothermal(ctx, n, nw, kinds, ng):
+def isothermal(ctx, n, nw, kinds, ng, concrete_quad=False):
     """Same real run with one temperature for every layer: eclipse depth == B(T)/B(T*) (Rp/Rs)^2 exactly on
     unclamped paths and within the factor [1, 1+exp(-10)] otherwise, whatever the composition."""
     from taurex.model import EmissionModel
     T0 = ctx.real('T', gt=0, hint=(300, 3000))
     T = oarr([T0] * n, ctx.sym)
     Ts = ctx.real('Tstar', gt=0, hint=(3000, 8000))
-    r = _build(ctx, EmissionModel, n, nw, kinds, ng, T, Ts)
+    r = _build(ctx, EmissionModel, n, nw, kinds, ng, T, Ts, concrete_quad=concrete_quad)
     tau = _vertical_tau(r, n, nw)
     E10 = ctx.exp(-10.0)
     for v in range(nw):
